@@ -383,12 +383,93 @@ func c09Overlap(c *fw.Ctx) {
 	}
 }
 
+// (F) values supplied at read time through OnValueGet, and several writes in ONE request.
+func c09GettersAndBatches(c *fw.Ctx) {
+	s, err := c09Build(c, 0)
+	if err != nil {
+		c.Infra("build: " + err.Error())
+		return
+	}
+	defer s.Close()
+	// getters: the value the application returns from its read callback is what the controller reads
+	for _, cc := range s.chars {
+		ch := cc.Ch
+		if !ch.IsReadable() {
+			continue
+		}
+		vals := c09Values(ch)
+		for vi, v := range vals {
+			c.Eval(1)
+			v := v
+			ch.OnValueGet(func() interface{} { return v.V })
+			cas := c09Case{Kind: "getter", Ctor: cc.Name, Value: v.Label}
+			es, ok := c09Get(c, s, [][2]uint64{{cc.Acc.ID, ch.ID}}, cas, "getter")
+			if ok && !c09Same(es[0].Value, v.V) {
+				c.Report("getter-value-differs/"+ch.Format+"/"+permKey(ch), fmt.Sprintf("%s: the application's read callback returned %v, the controller read %v", cc.Name, trunc([]byte(fmt.Sprint(v.V)), 40), trunc([]byte(fmt.Sprint(es[0].Value)), 40)), cas)
+				break
+			}
+			if vi == len(vals)-1 {
+				c.Class("getter:" + ch.Format + permKey(ch))
+			}
+		}
+		ch.OnValueGet(nil)
+	}
+	// batches: k writable characteristics written with k different values in one PUT
+	var wr []*c09Char
+	for _, cc := range s.chars {
+		if cc.Ch.IsWritable() && cc.Ch.IsReadable() && len(c09Values(cc.Ch)) >= 2 {
+			wr = append(wr, cc)
+		}
+	}
+	for _, k := range []int{2, 3, 5, 16, len(wr)} {
+		for start := 0; start+k <= len(wr) && start < 24; start += 3 {
+			c.Eval(1)
+			cas := c09Case{Kind: "batch", N: k, Len: start}
+			var parts []string
+			want := map[*c09Char]interface{}{}
+			for i := 0; i < k; i++ {
+				cc := wr[start+i]
+				vals := c09Values(cc.Ch)
+				v := vals[(i+start)%len(vals)]
+				if reflect.DeepEqual(cc.Ch.Value, v.V) {
+					v = vals[(i+start+1)%len(vals)]
+				}
+				jv, _ := json.Marshal(v.V)
+				parts = append(parts, fmt.Sprintf(`{"aid":%d,"iid":%d,"value":%s}`, cc.Acc.ID, cc.Ch.ID, jv))
+				want[cc] = v.V
+			}
+			m, _, err := s.k.Do("PUT", "/characteristics", refctl.CTJSON, []byte(`{"characteristics":[`+strings.Join(parts, ",")+`]}`))
+			if err != nil || m.Status/100 != 2 {
+				c.Report("batch-put-failed", fmt.Sprintf("PUT with %d entries fails: %v %v", k, m, err), cas)
+				return
+			}
+			for cc, v := range want {
+				got := cc.Ch.Value
+				if !reflect.DeepEqual(got, v) {
+					c.Report("batch-write-differs/"+cc.Ch.Format, fmt.Sprintf("PUT with %d entries: %s was written %v but the application sees %v", k, cc.Name, trunc([]byte(fmt.Sprint(v)), 40), trunc([]byte(fmt.Sprint(got)), 40)), cas)
+					break
+				}
+				s.mu.Lock()
+				last := s.last[cc.Ch]
+				s.mu.Unlock()
+				if !reflect.DeepEqual(last, v) {
+					c.Report("batch-callback-differs/"+cc.Ch.Format, fmt.Sprintf("PUT with %d entries: the remote-update callback of %s received %v instead of %v", k, cc.Name, trunc([]byte(fmt.Sprint(last)), 40), trunc([]byte(fmt.Sprint(v)), 40)), cas)
+					break
+				}
+			}
+			c.Class(fmt.Sprintf("batch:%d", k))
+		}
+	}
+}
+
 func c09Run(c *fw.Ctx) {
 	switch {
+	case c.Shard == 10:
+		c09GettersAndBatches(c)
 	case c.Shard == 11:
 		c09Overlap(c)
-	case c.Shard < 11:
-		c09Values1(c, c.Shard, 11)
+	case c.Shard < 10:
+		c09Values1(c, c.Shard, 10)
 	case c.Shard == 12:
 		c09Shapes(c)
 	case c.Shard == 13:
@@ -701,7 +782,7 @@ func init() {
 	fw.Register(&fw.Check{
 		ID:     "C09",
 		Level:  "exploration",
-		Rule:   "real transport over TCP with a verified independent controller; accessories assembled from EVERY characteristic constructor found in /repo. (A) every constructor × the boundary alphabet of its format inside its bounds (min, min+step, mid, max−step, max; booleans; strings: empty, ASCII, quotes/backslashes, HTML characters, non-BMP runes, control characters, 1 KiB, 3000 bytes; base64 payloads of 0/1/300/5000 bytes): application-set value read by single id, in an id list and in /accessories; controller-written value compared with the typed getter and the remote-update callback. (B) id-list shapes [e] [ne] [e,ne] [ne,e] [e,e] [e1,e2,e3] [50 ids] [write-only] …: each id answered once, in order, with a value or a non-zero status, multi-status ⇒ every entry has a status. (C) response body length sweep: every string length 0..4200 (quick) / 0..9000 (thorough), walking every residue of the 2048-byte chunker, net/http's 4096-byte writer and the 1024-byte frame. (D) databases of 8, 9, 17, 57 (thorough 157) accessories. (E) overlapping responses of two verified controllers, the interleaving forced by flow control (one stops reading inside a response of 5000 / 6000 bytes / 12 MiB with fixed 64 KiB receive buffers while the other completes a request), both orders. After every controller write the value is read back by id and in /accessories. distinct_nontrivial = distinct (operation, format / shape / frame count) classes",
+		Rule:   "real transport over TCP with a verified independent controller; accessories assembled from EVERY characteristic constructor found in /repo. (A) every constructor × the boundary alphabet of its format inside its bounds (min, min+step, mid, max−step, max; booleans; strings: empty, ASCII, quotes/backslashes, HTML characters, non-BMP runes, control characters, 1 KiB, 3000 bytes; base64 payloads of 0/1/300/5000 bytes): application-set value read by single id, in an id list and in /accessories; controller-written value compared with the typed getter and the remote-update callback. (B) id-list shapes [e] [ne] [e,ne] [ne,e] [e,e] [e1,e2,e3] [50 ids] [write-only] …: each id answered once, in order, with a value or a non-zero status, multi-status ⇒ every entry has a status. (C) response body length sweep: every string length 0..4200 (quick) / 0..9000 (thorough), walking every residue of the 2048-byte chunker, net/http's 4096-byte writer and the 1024-byte frame. (D) databases of 8, 9, 17, 57 (thorough 157) accessories. (E) overlapping responses of two verified controllers, the interleaving forced by flow control (one stops reading inside a response of 5000 / 6000 bytes / 12 MiB with fixed 64 KiB receive buffers while the other completes a request), both orders. After every controller write the value is read back by id and in /accessories. (F) every readable constructor with an application read callback (OnValueGet) returning each value of its alphabet; PUT requests writing 2, 3, 5, 16 and all writable characteristics with different values at once. distinct_nontrivial = distinct (operation, format / shape / frame count) classes",
 		Shards: func(string) int { return 16 },
 		Run:    c09Run,
 		Replay: func(c *fw.Ctx, raw json.RawMessage) {
@@ -716,6 +797,8 @@ func init() {
 				c09Databases(c)
 			case "overlap":
 				c09Overlap(c)
+			case "getter", "batch":
+				c09GettersAndBatches(c)
 			default:
 				c09Values1(c, 0, 1)
 			}
